@@ -99,7 +99,7 @@ def shard(idx, n, seed, tier, params):
         with TempProject({"main.asm": src}, "") as tp:
             r = run_mos(["--no-color", "-e", "Short", "test"], tp.dir)
         w = {"main.asm": src, "expected": tests, "exit": r["rc"], "stdout": r["out"][-4000:], "stderr": r["err"][-3000:]}
-        if r["timeout"] or r["rc"] in (97, 101) or (r["rc"] or 0) < 0:
+        if r["timeout"] or r["rc"] in (96, 97, 101) or (r["rc"] or 0) < 0:
             acc.inconc("abnormal exit %s: %s" % (r["rc"], r["err"][-150:]))
             continue
         log = r["err"] + "\n" + r["out"]      # the verdict lines are log output (stderr), the diagnostics go to stdout
